@@ -490,9 +490,17 @@ class RecReceiver(Receiver):
 
 
 # ---------------------------------------------------------------------- middlewares
-def make_middleware(world: "World", idx: int, spec: dict) -> TaskiqMiddleware:
+def make_middleware(world: "World", idx: int, spec: dict, parent: Any = None) -> TaskiqMiddleware:
     hooks = spec.get("hooks", {})
     ns: Dict[str, Any] = {}
+    base: Any = TaskiqMiddleware
+    if parent is not None:
+        # the class derives from another middleware's class; hooks of the parent it does not define itself are set back to the
+        # framework's defaults, so that the set of overridden hooks is exactly the scripted one
+        base = type(parent)
+        for h in HOOK_NAMES:
+            if h not in hooks:
+                ns[h] = getattr(TaskiqMiddleware, h)
 
     def note(hook: str, message: Any, d: Any, **kw: Any) -> None:
         world.rec(
@@ -559,8 +567,11 @@ def make_middleware(world: "World", idx: int, spec: dict) -> TaskiqMiddleware:
 
     for hook, hs in hooks.items():
         ns[hook] = build(hook, hs)
-    cls = type(f"RecMW{idx}", (TaskiqMiddleware,), ns)
+    cls = type(f"RecMW{idx}", (base,), ns)
     return cls()
+
+
+HOOK_NAMES = ("pre_send", "post_send", "pre_execute", "on_error", "post_execute", "post_save")
 
 
 class _Lazy:
@@ -927,6 +938,11 @@ def make_task_func(world: World, tspec: dict) -> Any:
     if tspec.get("ctx"):
         params.append(inspect.Parameter("ctx", inspect.Parameter.KEYWORD_ONLY, default=TaskiqDepends(), annotation=Context))
         annotations["ctx"] = Context
+    if tspec.get("state_dep"):
+        # a dependency served straight from the broker-wide dependency context (the broker's TaskiqState)
+        from taskiq.state import TaskiqState
+        params.append(inspect.Parameter("st", inspect.Parameter.KEYWORD_ONLY, default=TaskiqDepends(), annotation=TaskiqState))
+        annotations["st"] = TaskiqState
     if tspec.get("uparam"):
         # a parameter whose annotation keeps bool / int / float / str apart (values that compare and hash equal across messages)
         from typing import Union
@@ -946,7 +962,7 @@ def make_task_func(world: World, tspec: dict) -> Any:
                     "labels": enc_labels(dict(ctx.message.labels))}
         world.rec("fn_enter", d, attempt=world.attempt_of.get(d), seen=seen,
                   args=summarize_value(list(args)),
-                  kwargs=summarize_value({k: v for k, v in kw.items() if k != "ctx" and k not in roots}),
+                  kwargs=summarize_value({k: v for k, v in kw.items() if k not in ("ctx", "st") and k not in roots}),
                   deps={s: kw.get(s) for s in roots})
         return d, beh
 
@@ -1041,6 +1057,7 @@ def make_endpoint(world: World, node: str, worker: Optional[int] = None, gen: in
         br.with_formatter(JSONFormatter())
     br.with_result_backend(SimResultBackend(world))
     mws: List[TaskiqMiddleware] = []
+    made: Dict[int, Any] = {}
     for i, ms in enumerate(cfg.get("middlewares", [])):
         if ms.get("late") and not world.extra.get("late_mw_added"):
             continue        # added to the running brokers by the "add_late_mw" op
@@ -1052,7 +1069,15 @@ def make_endpoint(world: World, node: str, worker: Optional[int] = None, gen: in
                 no_result_on_retry=r.get("no_result_on_retry", True),
             ))
         else:
-            mws.append(make_middleware(world, i, ms))
+            parent = None
+            inh = cfg.get("mw_inherit")
+            if inh and inh[0] == i and inh[1] in made:
+                parent = made[inh[1]]
+            made[i] = make_middleware(world, i, ms, parent)
+            mws.append(made[i])
+    if cfg.get("mw_bare") is not None and mws:
+        # an instance of the base class itself (overrides nothing): none of its hooks may be called, and it must not affect the others
+        mws.insert(min(cfg["mw_bare"], len(mws)), TaskiqMiddleware())
     if worker is None and cfg.get("client_label_adder"):
         mws.append(_LabelAdder(world))
     split = cfg.get("mw_split")
